@@ -177,7 +177,7 @@ func sequenceScenario(logN, residual int, first seqKind) engine.Scenario {
 			ev   *ckks.Evaluator
 		}{{"DFTEvaluator", cp.DFTEvaluator.Evaluator}, {"Mod1Evaluator", cp.Mod1Evaluator.Evaluator}} {
 			if sub.ev != cp.Evaluator || sub.ev == used.Evaluator {
-				c.Fail("C18/copy/ShallowCopy-sub-evaluator-runs-on-the-receiver's-buffers", "%s: copy.%s is built on %s", name, sub.name,
+				c.Fail("C18/copy/ShallowCopy-sub-evaluator-runs-on-receiver-buffers", "%s: copy.%s is built on %s", name, sub.name,
 					map[bool]string{true: "the receiver's ckks.Evaluator", false: "an evaluator that is not the copy's own"}[sub.ev == used.Evaluator])
 			}
 		}
